@@ -590,6 +590,8 @@ impl<'ast, 'res> Resolver<'ast, 'res> {
         // Set current function context for return validation
         let prev_owner = self.current_owner;
         let prev_function = self.current_function;
+        // A loop around the definition is not a loop around the body's statements.
+        let prev_in_loop = std::mem::take(&mut self.in_loop);
         self.current_owner = function_id;
         self.current_function = Some(function_id);
 
@@ -628,6 +630,7 @@ impl<'ast, 'res> Resolver<'ast, 'res> {
         // Restore previous function context
         self.current_owner = prev_owner;
         self.current_function = prev_function;
+        self.in_loop = prev_in_loop;
     }
 
     fn check_return_stmt(&mut self, expr: Option<ExprRef<'ast>>, span: &'ast Span) {
